@@ -139,7 +139,7 @@ def buffer_alphabet(handles):
     al = [op('buffer', n=[8, 1], cm='none'), op('buffer', n=[16, 2], cm='func'), op('consecutive', n=[2, 8, 1]),
           op('b_free_all')]
     for h in handles:
-        al += [op('b_free', h=h, cm='none'), op('b_zero', h=h, cm='none')]
+        al += [op('b_free', h=h, cm='none'), op('b_free', h=h, cm='state'), op('b_zero', h=h, cm='none')]
     return al
 
 
@@ -167,7 +167,7 @@ def fam_buffers(depth):
 
 
 def fam_buffer_commands():
-    pre = [op('buffer', n=[8, 1], cm='none'), op('buffer_noalloc', n=[8, 2])]
+    pre = [op('buffer', n=[8, 1], cm='state'), op('buffer_noalloc', n=[8, 2])]
     cmds = [op('b_alloc', h=2, n=[8, 2], cm='none'), op('b_alloc', h=2, n=[8, 2], cm='list'), op('b_alloc', h=2, n=[8, 2], cm='func'),
             op('b_zero', h=1, cm='func'), op('b_close', h=1, cm='none'), op('b_close', h=1, cm='list'), op('b_query', h=1),
             op('b_set', h=1, a=[ti(0), tf(4), ti(3), ti(1)]), op('b_setn', h=1, a=[ti(0), tl(tf(1), tf(2)), ti(4), tf(4)]),
@@ -176,7 +176,11 @@ def fam_buffer_commands():
             op('b_cue', h=1, **{'def': '/tmp/x.wav'}, n=[0, 8], cm='none'), op('b_cue', h=1, **{'def': '/tmp/x.wav'}, n=[64, 8], cm='func'),
             op('b_write', h=1, **{'def': '/tmp/y.aiff'}, n=[-1, 0, 0], cm='none'), op('b_write', h=1, **{'def': '/tmp/y.aiff'}, n=[100, 8, 1], cm='func'),
             op('b_alloc_read', h=2, **{'def': '/tmp/x.wav'}, n=[0, -1], cm='none'), op('b_alloc_read', h=2, **{'def': '/tmp/x.wav'}, n=[8, 64], cm='func'),
-            op('b_free', h=1, cm='func'), op('b_free', h=1, cm='list'),
+            op('b_free', h=1, cm='func'), op('b_free', h=1, cm='list'), op('b_free', h=1, cm='state'), op('b_free', h=2, cm='state'),
+            op('b_zero', h=1, cm='state'), op('b_close', h=2, cm='state'), op('b_alloc', h=2, n=[8, 2], cm='state'),
+            op('b_cue', h=1, **{'def': '/tmp/x.wav'}, n=[16, 8], cm='state'),
+            op('b_write', h=2, **{'def': '/tmp/y.aiff'}, n=[-1, 0, 0], cm='state'),
+            op('b_alloc_read', h=2, **{'def': '/tmp/x.wav'}, n=[0, -1], cm='state'),
             op('b_get', h=1, n=[3]), op('b_getn', h=1, n=[0, 4]),
             op('b_sine1', h=1, a=[tf(8), tf(4), ti(1)], n=[1, 1, 1]), op('b_sine1', h=1, a=[tf(8)], n=[0, 0, 0]),
             op('b_sine2', h=1, a=[ti(1), tf(8), ti(3), tf(2)], n=[1, 0, 1]),
@@ -234,7 +238,7 @@ def bind_bodies():
             op('group', tk='none', act='tail', n=[0]),
             op('set', h=4, a=[ts('amp'), tf(4)]), op('free', h=4), op('release', h=4, n=[0, 0]),
             op('paused', **{'def': 'd'}, tk='obj', t=1, act='addToTail', a=[]),
-            op('buffer', n=[8, 1], cm='func'), op('b_free', h=3, cm='none'), op('b_free_all'),
+            op('buffer', n=[8, 1], cm='func'), op('b_free', h=3, cm='state'), op('b_free_all'),
             op('cbus', n=[1]), op('c_set', h=2, a=[tf(4), ti(1)])]
 
 
@@ -388,7 +392,7 @@ def random_history(rnd, n):
                 kinds.append('bufs')
                 return op('consecutive', n=[2, 8, 1])
             kinds.append('buf')
-            return op('buffer', n=[rnd.choice([8, 64]), rnd.randint(1, 2)], cm=rnd.choice(['none', 'list', 'func']))
+            return op('buffer', n=[rnd.choice([8, 64]), rnd.randint(1, 2)], cm=rnd.choice(['none', 'list', 'func', 'state']))
         node = pick('synth', 'group')
         if x < 0.75 and node:
             c = rnd.choice(node_ops(pick('cbus') or 0, pick('buf') or 0, pick('group', 'synth')))
@@ -423,7 +427,7 @@ def random_history(rnd, n):
                 # freed objects are not used again, except for an immediate second free()
                 again = kinds[b - 1] == 'buf' and rnd.random() < 0.4
                 kinds[b - 1] = 'dead'
-                f = op('b_free', h=b, cm=rnd.choice(['none', 'func']))
+                f = op('b_free', h=b, cm=rnd.choice(['none', 'func', 'state']))
                 return [f, op('b_free', h=b, cm='none')] if again else f
             return rnd.choice([op('b_zero', h=b, cm='none'), op('b_set', h=b, a=[ti(0), tf(4)]), op('b_query', h=b),
                                op('b_fill', h=b, a=[ti(0), ti(4), tf(4)])])
